@@ -91,7 +91,7 @@ fn run() {
         let mut built: Option<Built> = None;
         let mut maps = Maps { instruments: vec![], assets: vec![] };
         let mut n = 0usize;
-        for op in case.ops.iter() {
+        for (op_index, op) in case.ops.iter().enumerate() {
             lines.push("@".into());
             if op[0] == "init" {
                 n = op[1].parse().unwrap();
@@ -180,7 +180,9 @@ fn run() {
                             let t = time_ms(op[2].parse().unwrap());
                             engine.state.update_from_market(&MarketEvent {
                                 time_exchange: t,
-                                time_received: t,
+                                // the local receive time is unrelated to the exchange time (a late message
+                                // is RECEIVED late): always later than every exchange timestamp of the case
+                                time_received: time_ms(10_000 + op_index as i64),
                                 exchange: EXCHANGES[0],
                                 instrument: idx,
                                 kind: DataKind::Trade(PublicTrade {
@@ -196,7 +198,7 @@ fn run() {
                             let tl = time_ms(op[3].parse().unwrap());
                             engine.state.update_from_market(&MarketEvent {
                                 time_exchange: te,
-                                time_received: te,
+                                time_received: time_ms(10_000 + op_index as i64),
                                 exchange: EXCHANGES[0],
                                 instrument: idx,
                                 kind: DataKind::OrderBookL1(OrderBookL1 {
@@ -211,7 +213,7 @@ fn run() {
                             let tl = time_ms(op[3].parse().unwrap());
                             engine.state.update_from_market(&MarketEvent {
                                 time_exchange: te,
-                                time_received: te,
+                                time_received: time_ms(10_000 + op_index as i64),
                                 exchange: EXCHANGES[0],
                                 instrument: idx,
                                 kind: DataKind::OrderBookL1(OrderBookL1 {
